@@ -1,0 +1,15 @@
+//go:build verif
+
+package runscript
+
+// Contracts for the deductive verifier in /verif (comment-only; compiled only with -tags verif).
+//
+// ---- C19: each test file is evaluated in a scope of its own ------------------------------------------
+//@ props C19
+//@ traced: runscript.runSource
+// `pangaea test dir`: every file is evaluated in a new scope enclosed by the shared one, so that a variable a file
+// defines is not visible to the files run after it
+//@ func runscript.runTest(fileName, in, out, env) res
+//@   requires env != nil
+//@   ensures  forall k int :: {arg4(k)} 0 <= k && k < ncalls && called(k, runscript.runSource) ==> arg4(k) != env && fresh(arg4(k)) && as(arg4(k), *object.Env).outer == env && fresh(as(arg4(k), *object.Env).Store)
+//@   ensures  ncalls <= 1
